@@ -98,7 +98,9 @@ func withRandomDistribution(
 		}
 
 		var currentRate int
-		if remainingSteps == 1 || remainingRate == 0 {
+		// a rate function may return a negative value (e.g. a staged profile with a negative target):
+		// nothing is left to spread then, and the random source must not be asked for a non-positive bound
+		if remainingSteps == 1 || remainingRate <= 0 {
 			currentRate = remainingRate
 		} else {
 			currentRate = randFn(remainingRate)
